@@ -1,9 +1,12 @@
 """C20 — program instances are isolated and independent of the rayon pool they run in."""
 from . import core, eng, gen, engcheck
 
-THEOREMS = ["insert_within", "insertMut_within", "moveContents_within", "new_within", "mergeStep_pool_independent"]
+THEOREMS = ["insert_within", "insertMut_within", "moveContents_within", "new_within", "mergeStep_pool_independent",
+            "pool_independent", "rerun_other_pool", "construct_pool_irrelevant"]
 TRUSTED = ["Lean 4.33.0 kernel", "axioms: propext, Classical.choice, Quot.sound only (audited per theorem)",
-           "statement: Props/C20.lean",
+           "statement: Props/C20.lean; Props/C20Phys.lean: over the ascent_par! code with its concurrent indices (Model/EnginePhysPar.lean, per-thread CRelNoIndex shards constructed in the "
+           "current pool): the pool a program value is constructed in is irrelevant (construct_pool_irrelevant), two runs in pools of different sizes under any schedules agree "
+           "(pool_independent), a re-run in another pool changes nothing and does not panic (rerun_other_pool) - corollaries of runPhysPar_eq_leastModel (Props/C02Phys.lean)",
            "tie: several instances (same and different generated types, serial and ascent_par!) run at the same time on OS threads; parallel instances "
            "constructed in a pool of a threads, run in b, re-run after pushes in c, for (a,b,c) in {1,2,3,8,16}^3 (sampled in the quick tier); each "
            "result must equal what the instance computes alone (model) and the naive oracle",
@@ -152,7 +155,7 @@ def fresh_process_step(r, d, progs, bins, tier):
 
 
 def check(tier, replay=None):
-    return engcheck.run_property("C20", tier, extra=fresh_process_step, modules=["AscentVerif.Props.C20"], theorems=THEOREMS, trusted=TRUSTED, group="c20",
+    return engcheck.run_property("C20", tier, extra=fresh_process_step, modules=["AscentVerif.Props.C20", "AscentVerif.Props.C20Phys"], theorems=THEOREMS, trusted=TRUSTED, group="c20",
                                  build=build, oracle=oracle, canon=canon, nbins=1, what="instances across pools and concurrent instances",
                                  rule="parallel programs constructed / run / re-run (after pushes) in pools of different sizes (a,b,c) in {1,2,3,8,16}^3; groups of instances of the "
                                       "same and of different generated types run at the same time on OS threads; every instance must compute what it computes alone; stress programs with 1500 rows "
